@@ -658,6 +658,15 @@ impl<'a, 'ast> Visit<'ast> for Collector<'a> {
         }
         syn::visit::visit_expr_method_call(self, m);
     }
+    fn visit_type_trait_object(&mut self, t: &'ast syn::TypeTraitObject) {
+        // R10: `dyn OHLCV` is instantiated at an opaque candle type whose five accessors are uninterpreted
+        let (s, e) = range(t.span());
+        if nows(&self.src[s..e]) == "dynOHLCV" {
+            self.push(s, e, "DynOHLCV".into(), "R10");
+        } else {
+            self.errors.push(format!("unsupported trait object `{}`", &self.src[s..e]));
+        }
+    }
     fn visit_expr_unsafe(&mut self, u: &'ast syn::ExprUnsafe) {
         let (s, e) = range(u.unsafe_token.span());
         self.push(s, e, String::new(), "R6");
@@ -1026,6 +1035,14 @@ fn extract(src: &Src, b: &Block, report: &mut Vec<serde_json::Value>, vacuity: b
                 }
             }
         }
+        for inp in sig.inputs.iter() {
+            if let syn::FnArg::Typed(pt) = inp {
+                col.visit_type(&pt.ty);
+            }
+        }
+        if let syn::ReturnType::Type(_, ty) = &sig.output {
+            col.visit_type(ty);
+        }
         // R3 named return
         if let (Some(rn), syn::ReturnType::Type(_, ty)) = (&ret_name, &sig.output) {
             let (ts, te) = range(ty.span());
@@ -1178,7 +1195,7 @@ fn extract(src: &Src, b: &Block, report: &mut Vec<serde_json::Value>, vacuity: b
     let ls = text[..s0].matches('\n').count() + 1;
     let le = text[..e0].matches('\n').count() + 1;
     if contract_only.is_some() && f.kind == "fn" {
-        let out = format!("#[verifier::external_body] /* contract imported from unit {}; the body is verified there */\n\t{}", contract_only.unwrap(), out);
+        let out = if f.block.is_none() { out } else { format!("#[verifier::external_body] /* contract imported from unit {}; the body is verified there */\n\t{}", contract_only.unwrap(), out) };
         report.push(serde_json::json!({"file": b.file, "path": b.path, "kind": "imported-contract", "from_unit": contract_only.unwrap()}));
         return Ok(out);
     }
